@@ -340,7 +340,8 @@ func run(contract bool, polls int, kinds int, second bool) {
 			zz.Cover("history:tokens", true)
 			s.sweep("after-success", false)
 			// replay
-			if zz.Thorough() {
+			if zz.Thorough() || contract {
+				// (quick tier: only for the contract store, where a replay has consequences)
 				s.advance()
 				s.poll(f, "replay", f.owner, 0, 0)
 			} else {
